@@ -314,7 +314,7 @@ def member_batches(rng, thorough):
 
 def nontrivial(op, result):
     t = op.split()
-    if t[0] in ("bits", "det0", "builders", "mem", "mems", "vecs", "crs", "sqs", "mvs", "nb", "md", "tp", "inf"):
+    if t[0] in ("mixchk", "bits", "det0", "builders", "mem", "mems", "vecs", "crs", "sqs", "mvs", "nb", "md", "tp", "inf"):
         return True
     if t[0] in ("pairs", "trios"):
         return any(int(x) != 0x55 for x in t[2:])      # 0x55 is the zero matrix
@@ -377,6 +377,9 @@ def batches(rng, tier):
         ops = [f"trios b {r.below(256)} {r.below(256)}" for _ in range(2000)]
         yield Batch("2x2-triples-view", ops, note="2000 seeded pairs (A,B) x all C, buffer-view storage")
     # ---- fixed small things
+    yield Batch("mixed-element-types", [f"mixchk {n}" for n in range(1, 201 if thorough else 61)],
+                note="+ - * of vectors and dims whose operands have different element types (int/long, short/int, long long/short), the wide operand far "
+                     "outside the narrow type: against plain arithmetic per component")
     yield Batch("bits-det0", [f"bits {n}" for n in range(1, 6)] + ["det0"] + [f"sq {m} 1 {x}" for m in "sb" for x in range(-9, 10)],
                 exhaustive=True, note="bit_strings 1..5, determinant of the 0x0 matrix, every 1x1 matrix in [-9,9]")
     scale = 5 if thorough else 1
